@@ -741,7 +741,7 @@ struct SelCases {
 		St x; x.count = s.GetCount(); x.cl = &s.GetColumnList(); x.mgr = MgrId<MM>::get(s.GetMemManager());
 		size_t off = s.GetColumnList().GetOffset(vfIntCol);
 		for (size_t i = 0; i < s.mRaws.GetCount(); ++i) { x.raws.push_back(s.mRaws[i]); x.vals.push_back(CL::template GetByOffset<const int>(s.mRaws[i], off)); }
-		const auto& vk = (const typename S::VersionKeeper&)s;      // (private base: only a C-style cast reaches it) x.ver = vk.mContainerVersion; x.verVal = vk.mVersion;
+		const auto& vk = (const typename S::VersionKeeper&)s; /* private base: only a C-style cast reaches it */ x.ver = vk.mContainerVersion; x.verVal = vk.mVersion;
 		x.block = (!s.mRaws.mData.pvIsInternal() && s.mRaws.mData.mItems != nullptr) ? (const void*)s.mRaws.mData.mItems : nullptr;
 		return x;
 	}
